@@ -9,6 +9,7 @@ import (
 	"fmt"
 	"math/big"
 	"net"
+	"os"
 	"strings"
 
 	"github.com/coredhcp/coredhcp/plugins/allocators"
@@ -486,6 +487,7 @@ func runHistory(c *Ctx, p *pool, nops int, hostile bool, caseCtor string, script
 			o = genOp(c, p, out, hostile)
 		}
 		c.Count("op:" + o.class)
+		c.Breadcrumb(map[string]interface{}{"pool": p.desc, "ops_so_far": opS, "next_op": o.String()})
 		r := doOp(p, o)
 		ops = append(ops, o.coq())
 		opS = append(opS, o.String())
@@ -612,6 +614,12 @@ func runHistory(c *Ctx, p *pool, nops int, hostile bool, caseCtor string, script
 
 func runAlloc(c *Ctx) {
 	c.SetCases("From Verif Require Import Base Alloc AllocRun.", "AllocRun.mismatches")
+	if os.Getenv("VERIF_PHASE") == "conc" {
+		// concurrent phase only (run under the race detector by ./check)
+		runAllocConcurrent(c, c.Scale(3000, 40000))
+		c.Extra["rule"] = "concurrent rounds of Allocate/Free from 8 goroutines under the race detector"
+		return
+	}
 	c.shard = 60
 	r := c.R
 	type geo4 struct{ s, e string }
@@ -729,6 +737,9 @@ func runAlloc(c *Ctx) {
 				c.Count("pool:v6-from-ipv4-cidr")
 			}
 		}
+	}
+	if c.Prop == "C04" {
+		runAllocConcurrent(c, c.Scale(15000, 400000))
 	}
 	c.Extra["rule"] = "histories of 1..200 Allocate/Free ops on IPv4 ranges (sizes 1,2,3,63,64,65,127..129,1000, ending at 255.255.255.255) and IPv6 pools (/0../127 x order 0..10, v4-mapped); hints free/taken/outside/malformed, frees outstanding/sub-prefix/unallocated/below/above/malformed; non-trivial = distinct history with >=2 ops and >=1 successful allocation"
 }
